@@ -569,7 +569,8 @@ def main(chk: Check) -> None:
             ('wide3', [1, 2, 3, 4], [1, 3], 2, 3, 3, 2, ALL_KINDS, False),
             ('mid', [1, 3, 4, 5], [3], 1, 5, 4, 2, mid, False),
             ('pend', [1, 3, 4, 5], [3], 1, 6, 6, 2, pend, True),
-            ('native', [4, 6, 9, 10, 11, 12], [10], 2, 3, 3, 1, nat, True),
+            ('native', [4, 6, 9, 10, 11, 12], [10], 2, 3, 2, 1, nat, True),
+            ('native1', [4, 6, 9, 10, 11, 12], [10], 1, 4, 4, 1, nat, True),
         ]
     with ProcessPoolExecutor(max_workers=common.NCPU) as ex:
         for label, argsel, onesel, mb, mdepth, idepth, mo, kinds, gnu in spaces:
